@@ -9,7 +9,9 @@ Record pcase := { pc_spec : pspec; pc_out : list string; pc_optimal : list inter
 
 Fixpoint strs_eqb (a b : list string) : bool :=
   match a, b with [], [] => true | x :: r, y :: s => String.eqb x y && strs_eqb r s | _, _ => false end.
+Definition modelled (c : pcase) : bool := forallb (fun p => match pf_only p with [] => true | _ => false end) (p_prefs (pc_spec c)).
 Definition pcorr_ok (c : pcase) : bool :=
+  if negb (modelled c) then true else
   match compile_prefs (pc_spec c) with Some ws => strs_eqb (map print_wc ws) (pc_out c) | None => false end.
 
 Definition space (c : pcase) : list interp := powerset (candidates (world (pc_spec c))).
@@ -30,6 +32,7 @@ Definition reading_opt_exact (c : pcase) : bool :=
   opt_table_exact (map (fun J => (J, (hard s J, map (directed s J) ps))) (space c)) (pc_optimal c).
 (* the semantics given to the emitted weak constraints agrees with clingo *)
 Definition wc_opt_exact (c : pcase) : bool :=
+  if negb (modelled c) then true else
   match compile_prefs (pc_spec c) with
   | Some ws => let s := pc_spec c in let lv := levels_desc ws in
                opt_table_exact (map (fun J => (J, (hard s J, map (level_cost s J ws) lv))) (space c)) (pc_optimal c)
